@@ -187,7 +187,8 @@ let run_case (type c) ~(fmt : string) ~(mode : string) ~(get : string -> string 
     ~(k : int) ~(cell : string -> c) ~(ceqb : c -> c -> bool) ~(zero : c) ~(value : n list -> c)
     ~(alphabet : alphabet) ~(wf_extra : (style * src) list -> n list -> n list -> bool)
     ~(model_stop : n list list -> c outcome list) ~(model_calls : int -> n list list -> c outcome list)
-    ~(model_stop_e : event list -> c outcome list) ~(model_calls_e : int -> event list -> c outcome list) : string =
+    ~(model_stop_e : event list -> c outcome list) ~(model_calls_e : int -> event list -> c outcome list)
+    ~(model_polls_e : int -> event list -> c outcome list) : string =
   let verdict = ref "OK" in
   let set v = if !verdict = "OK" then verdict := v in
   (* the file *)
@@ -258,8 +259,8 @@ let run_case (type c) ~(fmt : string) ~(mode : string) ~(get : string -> string 
                (* where the model (if it panics too) places the panic: model-site=<n> of IoJaspar / IoUniprobe *)
                let site =
                  try
-                   let m = if is_ev spec then model_calls_e (List.length obs) (events_of spec data)
-                     else model_calls (List.length obs) (mk_stream (chunks_of spec data)) in
+                   let m = model_polls_e (List.length obs)
+                       (if is_ev spec then events_of spec data else of_stream (mk_stream (chunks_of spec data))) in
                    (match List.find_opt (fun o -> match o with Panic _ -> true | _ -> false) m with
                     | Some (Panic k) -> Printf.sprintf " model-site=%d" (int_of_nat k)
                     | _ -> " model-site=none")
@@ -278,11 +279,22 @@ let run_case (type c) ~(fmt : string) ~(mode : string) ~(get : string -> string 
         let m_stop = if ev then model_stop_e es else model_stop cs in
         if not (outcomes_eqb ceqb stop m_stop) then
           set (Printf.sprintf "DIFF chunking=%s %s" spec (first_diff ceqb stop m_stop))
+        else if List.length obs > List.length stop && mode = "c14" && gi > 0
+                && (match List.rev stop with Ok None :: _ -> true | _ -> false) then begin
+          (* C14 files are big: the polling model is run in full for the first chunking only; for the others the
+             prefix up to END already equals the model's and the calls after END must all answer END
+             (theorems reader_end_is_final) *)
+          if not (end_final obs) then set (Printf.sprintf "DIFF chunking=%s end-not-final" spec)
+        end
         else if List.length obs > List.length stop then begin
-          let m_all = if ev then model_calls_e (List.length obs) es else model_calls (List.length obs) cs in
+          (* the polling consumer (IoPoll.v): every call made after the first error / END, outcome by outcome *)
+          let m_all = model_polls_e (List.length obs) (if ev then es else of_stream cs) in
           if not (outcomes_eqb ceqb obs m_all) then
-            set (Printf.sprintf "DIFF chunking=%s after-error %s" spec (first_diff ceqb obs m_all))
+            set (Printf.sprintf "DIFF chunking=%s after-first-stop %s" spec (first_diff ceqb obs m_all))
+          else if not (end_final obs) then
+            set (Printf.sprintf "DIFF chunking=%s end-not-final" spec)
         end;
+        ignore model_calls; ignore model_calls_e;
         ignore gi
       end) (List.combine groups specs);
   !verdict
@@ -323,6 +335,8 @@ let () =
                   ~model_stop_e:(fun es -> if fmt = "jaspar" then jaspar_read_e caps es else jaspar16_read_e alphabet caps es)
                   ~model_calls_e:(fun n es -> if fmt = "jaspar" then jaspar_calls_e (nat_of_int n) caps es
                                    else jaspar16_calls_e alphabet (nat_of_int n) caps es)
+                  ~model_polls_e:(fun n es -> if fmt = "jaspar" then jaspar_polls_e (nat_of_int n) caps es
+                                   else jaspar16_polls_e alphabet (nat_of_int n) caps es)
             | "uniprobe" ->
                 (* oracle table token -> f32 bits (Rust's str::parse::<f32>, printed by the harness) *)
                 let tab = Hashtbl.create 64 in
@@ -345,6 +359,7 @@ let () =
                   ~model_calls:(fun n cs -> uniprobe_calls alphabet parse_f32 false (nat_of_int n) cs)
                   ~model_stop_e:(fun es -> uniprobe_read_e alphabet parse_f32 es)
                   ~model_calls_e:(fun n es -> uniprobe_calls_e alphabet parse_f32 (nat_of_int n) es)
+                  ~model_polls_e:(fun n es -> uniprobe_polls_e alphabet parse_f32 (nat_of_int n) es)
             | _ -> "OK"   (* a case of another group *)
           with
           | Bad why -> "DIFF driver: " ^ why
